@@ -7,7 +7,7 @@
              (embed (mul Z)|(take K) S B)
      SEL     (int z) (slice lo hi step) (arr z ...) (mask 0|1 ...)          "none" for None
    Requests:  sig B | run METH B X C | den DIR B X C | oldstack AX S N | oldvmapc N S AX
-              | merge B | cslice B lo hi | idxshape (SEL ...) S *)
+              | merge B | mergeinfo B | runmerged METH B X C | runslice METH B lo hi X C | idxshape (SEL ...) S *)
 open Bij
 open Conv
 open Fops
@@ -134,6 +134,20 @@ let handle (line : string) : string =
   | [A "oldstack"; ax; s; n] -> str_shape (stack_shape_old (z_of ax) (shape_of_sx s) (nat_of n))
   | [A "oldvmapc"; n; s; ax] -> str_shape (vmap_cshape_old (nat_of n) (shape_of_sx s) (z_of ax))
   | [A "merge"; L (A "chain" :: bs)] -> str_bij (merge_chains (List.map bij_of_sx bs))
+  | [A "mergeinfo"; L (A "chain" :: bs)] ->
+      (match merge_chains (List.map bij_of_sx bs) with
+       | Chain l -> Printf.sprintf "%d %b" (List.length l) (List.exists is_chain l)
+       | _ -> "ERR not-a-chain")
+  | [A "runmerged"; m; L (A "chain" :: bs); x; c] ->
+      (match run_meth ops (merge_chains (List.map bij_of_sx bs)) (meth_of (atom m)) (tensor_of_sx x) (otensor_of_sx c) with
+       | Ok (y, None) -> "ok " ^ str_tensor y ^ " -"
+       | Ok (y, Some ld) -> "ok " ^ str_tensor y ^ " " ^ str_tensor ld
+       | Err e -> "err " ^ str_err e)
+  | [A "runslice"; m; L (A "chain" :: bs); lo; hi; x; c] ->
+      (match run_meth ops (chain_slice (List.map bij_of_sx bs) (oz_of_sx lo) (oz_of_sx hi)) (meth_of (atom m)) (tensor_of_sx x) (otensor_of_sx c) with
+       | Ok (y, None) -> "ok " ^ str_tensor y ^ " -"
+       | Ok (y, Some ld) -> "ok " ^ str_tensor y ^ " " ^ str_tensor ld
+       | Err e -> "err " ^ str_err e)
   | [A "idxshape"; ix; s] ->
       let ix = sels_of_sx ix and s = shape_of_sx s in
       if not (idx_supported ix) then "err unsupported" else
